@@ -24,7 +24,7 @@ def run_demo(wt, demo, pid, tag):
     out = "/tmp/sw/%s_demo_%s" % (pid, tag)
     results = []
     variants = [""]
-    if pid.startswith(("C17", "C20", "C07", "C08", "C16")): variants = ["", "-D__sparc"]
+    if pid.startswith(("C17", "C20", "C07", "C08", "C16", "C01")): variants = ["", "-D__sparc"]
     for var in variants:
         r = sh(demo_cmd(demo, out, var), cwd=wt)
         if r.returncode != 0:
